@@ -8,8 +8,22 @@ import ScionTime.Model.Unixutil
 import ScionTime.Model.CsptpConv
 import ScionTime.Proofs.Int64Arith
 import ScionTime.Proofs.CsptpConv
+import ScionTime.Gen.Unixutil
+import ScionTime.Gen.Csptp
 namespace ScionTime.C18
 open ScionTime.Unixutil ScionTime.CsptpConv ScionTime.Int64Arith
+
+/-! ### Pins: literals inside the Go function bodies (regenerated from /repo on every run by
+harness/extract/x_c02c18.go) against the literals of the model. -/
+
+theorem C18_pin_timeval :
+    Gen.Unixutil.timevalDiv = 1000000000 ∧ Gen.Unixutil.timevalMod = 1000000000 ∧
+    Gen.Unixutil.timevalFixAdd = 1000000000 ∧ Gen.Unixutil.timevalFixSub = 1 := by decide
+
+/-- `s < 0`, `s > 1<<48-1` in `TimestampFromTime`; `>> 16`; `/ 2` in the formulas. -/
+theorem C18_pin_csptp :
+    Gen.Csptp.timestampMinSec = 0 ∧ Gen.Csptp.timestampMaxSec = 2^48 - 1 ∧
+    Gen.Csptp.timeIntervalShift = 16 ∧ Gen.Csptp.divMeanPathDelay = 2 ∧ Gen.Csptp.divClockOffset = 2 := by decide
 
 /-! ### TimevalFromNsec -/
 
